@@ -307,6 +307,8 @@ def remove_scenarios():
     a(Sc("adc pphh", "R14a", "ADC amplitude Y^cd_kl", A("Y", "cd", "kl", 0, AM) * N("x", "klcd"), "Y"))
     a(Sc("adc 2h1p", "R14a", "ADC amplitude Y^c_kl (more lower than upper indices)", A("Y", "c", "kl", 0, AM) * N("x", "klc"), "Y"))
     a(Sc("adc 2p1h", "R14a", "ADC amplitude X^cd_k (more upper than lower indices)", A("X", "cd", "k", 0, AM) * N("x", "kcd"), "X"))
+    a(Sc("adc 1h", "R14a", "ADC amplitude Y_k without upper indices", A("Y", "", "k", 0, AM) * N("x", "k"), "Y"))
+    a(Sc("adc 1p", "R14a", "ADC amplitude Y^c without lower indices", A("Y", "c", "", 0, AM) * N("x", "c"), "Y"))
     a(Sc("adc ph", "R14a", "ADC amplitude X^c_k", A("X", "c", "k", 0, AM) * N("x", "kc"), "X"))
     a(Sc("amplitude t", "R14a", "Amplitude that is no ADC amplitude", A("t2", "cd", "kl", 0, AM) * N("x", "klcd"), "t2"))
     a(Sc("adc bks", "R14a", "ADC amplitude with bra-ket symmetry is refused", A("Y", "k", "l", 1) * N("x", "kl"), "Y"))
